@@ -688,6 +688,12 @@ func (b *BaseStore) Sync(ctx context.Context, heads []ipfslog.Entry) error {
 			continue
 		}
 
+		// the entry is about to be re-encoded: what the encoder dereferences must be there
+		if clock, identity := h.GetClock(), h.GetIdentity(); clock == nil || !clock.Defined() || identity == nil || identity.Signatures == nil {
+			b.Logger().Debug("warning: Given input entry is incomplete and was discarded (no clock or identity signatures)")
+			continue
+		}
+
 		hash, err := b.IO().Write(ctx, b.IPFS(), h, nil)
 		if err != nil {
 			span.AddEvent("store-sync-cant-write", trace.WithAttributes(otkv.String("error", err.Error())))
